@@ -91,7 +91,7 @@ type Val struct {
 	D      string   `json:"d,omitempty"`
 	I      int64    `json:"i,omitempty"`
 	U      uint64   `json:"u,omitempty"`
-	Fl     F        `json:"f,omitempty"`
+	Fl     F        `json:"f"`
 	S      string   `json:"s,omitempty"`
 	SL     []string `json:"sl,omitempty"`
 	B      bool     `json:"b,omitempty"`
@@ -102,10 +102,10 @@ type Val struct {
 	UMax   uint64   `json:"umax,omitempty"`
 	IDMin  int64    `json:"idmin,omitempty"`
 	IDMax  int64    `json:"idmax,omitempty"`
-	FMin   F        `json:"fmin,omitempty"`
-	FMax   F        `json:"fmax,omitempty"`
-	FDMin  F        `json:"fdmin,omitempty"`
-	FDMax  F        `json:"fdmax,omitempty"`
+	FMin   F        `json:"fmin"`
+	FMax   F        `json:"fmax"`
+	FDMin  F        `json:"fdmin"`
+	FDMax  F        `json:"fdmax"`
 	IOpts  []int64  `json:"iopts,omitempty"`
 	UOpts  []uint64 `json:"uopts,omitempty"`
 	FOpts  []F      `json:"fopts,omitempty"`
@@ -123,7 +123,7 @@ type Obs struct {
 	VK   string   `json:"vk,omitempty"` // int uint double string strlist bool sync delete unset
 	I    int64    `json:"i,omitempty"`
 	U    uint64   `json:"u,omitempty"`
-	Fl   F        `json:"f,omitempty"`
+	Fl   F        `json:"f"`
 	S    string   `json:"s,omitempty"`
 	SL   []string `json:"sl,omitempty"`
 	B    bool     `json:"b,omitempty"`
@@ -1198,15 +1198,147 @@ func invalidate(r *vh.Rand, v *Val) string {
 	return ""
 }
 
+// boundary seeds: any non-zero int64 is a set seed (0 = "not set": time-based
+// for the global seed, shared generator for a value).  rand.NewSource reduces
+// the seed mod 2^31-1 (0 becomes 89482311), so 1 and 2^31, -1 and 2^31-2 ...
+// give the same stream; the tape is recorded from rand.NewSource(seed) itself.
+var edgeSeeds = []int64{-1, -7919, math.MinInt64, math.MaxInt64, 1, 2, -2, 1<<31 - 1, 1 << 31, -(1<<31 - 1), 1<<31 - 2, math.MinInt64 + 1, 1 << 62}
+
+func pickSeed(r *vh.Rand) int64 {
+	switch r.Pick(3, 3, 2, 2) {
+	case 0:
+		return edgeSeeds[r.Intn(len(edgeSeeds))]
+	case 1:
+		return int64(r.U64()>>1) | 1
+	case 2:
+		return -(int64(r.U64()>>1) | 1)
+	}
+	return int64(1 + r.Intn(5))
+}
+
+// boundary puts the sign/zero/one/extreme variant of one numeric field into an
+// otherwise ordinary value; the model says what HEAD does with it (accepted,
+// clamped, or the documented error).
+func boundary(r *vh.Rand, v *Val) string {
+	i64 := []int64{math.MinInt64, math.MinInt64 + 1, -2, -1, 0, 1, 2, math.MaxInt64 - 1, math.MaxInt64}
+	u64 := []uint64{0, 1, 2, 1<<63 - 1, 1 << 63, 1<<63 + 1, math.MaxUint64 - 1, math.MaxUint64}
+	f64 := []float64{0, math.Copysign(0, -1), 1, -1, math.MaxFloat64, -math.MaxFloat64, math.SmallestNonzeroFloat64, 0.5}
+	pi := func() int64 { return i64[r.Intn(len(i64))] }
+	pu := func() uint64 { return u64[r.Intn(len(u64))] }
+	pf := func() F { return F(f64[r.Intn(len(f64))]) }
+	switch r.Pick(3, 3, 3, 3, 4, 4, 3, 3) {
+	case 0:
+		v.NoTS = false
+		v.T = pi()
+		return "b:timestamp"
+	case 1:
+		v.NoTS = false
+		v.TMin, v.TMax = pi(), pi()
+		if r.Chance(1, 2) && v.TMin > v.TMax {
+			v.TMin, v.TMax = v.TMax, v.TMin
+		}
+		return "b:ts-delta"
+	case 2:
+		v.Repeat = []int32{math.MinInt32, -2, -1, 0, 1, 2, math.MaxInt32}[r.Intn(7)]
+		return "b:repeat"
+	case 3:
+		v.Seed = edgeSeeds[r.Intn(len(edgeSeeds))]
+		return "b:seed"
+	case 4:
+		v.K, v.D = "int", "range"
+		v.IMin, v.IMax, v.I = pi(), pi(), pi()
+		if r.Chance(2, 3) {
+			if v.IMin > v.IMax {
+				v.IMin, v.IMax = v.IMax, v.IMin
+			}
+			if r.Chance(2, 3) {
+				v.I = v.IMin
+				if r.Chance(1, 2) {
+					v.I = v.IMax
+				}
+			}
+		}
+		v.IDMin, v.IDMax = 0, 0
+		if r.Chance(1, 2) {
+			v.IDMin, v.IDMax = pi(), pi()
+			if r.Chance(2, 3) && v.IDMin > v.IDMax {
+				v.IDMin, v.IDMax = v.IDMax, v.IDMin
+			}
+		}
+		return "b:int-range"
+	case 5:
+		v.K, v.D = "uint", "range"
+		v.UMin, v.UMax, v.U = pu(), pu(), pu()
+		if r.Chance(2, 3) {
+			if v.UMin > v.UMax {
+				v.UMin, v.UMax = v.UMax, v.UMin
+			}
+			if r.Chance(2, 3) {
+				v.U = v.UMin
+				if r.Chance(1, 2) {
+					v.U = v.UMax
+				}
+			}
+		}
+		v.IDMin, v.IDMax = 0, 0
+		if r.Chance(1, 2) {
+			v.IDMin, v.IDMax = pi(), pi()
+			if r.Chance(2, 3) && v.IDMin > v.IDMax {
+				v.IDMin, v.IDMax = v.IDMax, v.IDMin
+			}
+		}
+		return "b:uint-range"
+	case 6:
+		v.K, v.D = "double", "range"
+		v.FMin, v.FMax, v.Fl = pf(), pf(), pf()
+		if r.Chance(2, 3) {
+			if float64(v.FMin) > float64(v.FMax) {
+				v.FMin, v.FMax = v.FMax, v.FMin
+			}
+			if r.Chance(2, 3) {
+				v.Fl = v.FMin
+			}
+		}
+		v.FDMin, v.FDMax = 0, 0
+		if r.Chance(1, 2) {
+			v.FDMin, v.FDMax = pf(), pf()
+		}
+		return "b:double-range"
+	default: // list lengths 0, 1, 2 with boundary members
+		n := r.Intn(3)
+		v.D, v.Random = "list", r.Chance(1, 2)
+		switch r.Intn(4) {
+		case 0:
+			v.K, v.IOpts = "int", nil
+			for i := 0; i < n; i++ {
+				v.IOpts = append(v.IOpts, pi())
+			}
+		case 1:
+			v.K, v.UOpts = "uint", nil
+			for i := 0; i < n; i++ {
+				v.UOpts = append(v.UOpts, pu())
+			}
+		case 2:
+			v.K, v.FOpts = "double", nil
+			for i := 0; i < n; i++ {
+				v.FOpts = append(v.FOpts, pf())
+			}
+		default:
+			v.K, v.SOpts = "strlist", nil
+			for i := 0; i < n; i++ {
+				v.SOpts = append(v.SOpts, words[r.Intn(len(words))])
+			}
+		}
+		return "b:list-length"
+	}
+}
+
 func randCase(r *vh.Rand, client bool, edge bool) (Case, string) {
 	c := Case{Client: client, Family: "queue"}
 	if client {
 		c.Family = "client"
 	}
-	c.Seed = int64(r.U64()>>1) | 1
-	if r.Chance(1, 3) {
-		c.Seed = int64(1 + r.Intn(5))
-	}
+	c.Seed = pickSeed(r)
 	c.NoSync = r.Chance(1, 6)
 	n := 1 + r.Intn(5)
 	if r.Chance(1, 30) {
@@ -1220,7 +1352,7 @@ func randCase(r *vh.Rand, client bool, edge bool) (Case, string) {
 	if r.Chance(1, 10) {
 		base[0] = int64(r.U64() >> uint(2+r.Intn(40)))
 	}
-	seeds := []int64{int64(1 + r.Intn(3)), int64(r.U64()>>1) | 1, c.Seed}
+	seeds := []int64{int64(1 + r.Intn(3)), pickSeed(r), pickSeed(r), c.Seed}
 	for i := 0; i < n; i++ {
 		c.Ops = append(c.Ops, randVal(r, base, seeds))
 	}
@@ -1228,7 +1360,12 @@ func randCase(r *vh.Rand, client bool, edge bool) (Case, string) {
 	what := ""
 	if edge && n > 0 {
 		c.Family += "-edge"
-		what = invalidate(r, &c.Ops[r.Intn(n)])
+		if r.Chance(1, 2) {
+			what = invalidate(r, &c.Ops[r.Intn(n)])
+		} else {
+			what = boundary(r, &c.Ops[r.Intn(n)])
+			c.Steps = 4 + r.Intn(8)
+		}
 	}
 	return c, what
 }
@@ -1374,7 +1511,7 @@ func main() {
 	if devnull != nil {
 		os.Stderr = devnull // glog of fake/gnmi (log.Errorf on every stream end)
 	}
-	meta := vh.NewMeta("corpus cases; seeded random configurations of 0..5 values of every kind (int/uint/double/string/string-list/bool/sync/delete) with range, list (random or rotating) or no distribution, value deltas, repeat in {-1,0,1,2,3,5}, shared and distinct small initial timestamps, timestamp deltas 0..6 (occasionally up to 2^45), global and per-value seeds (shared, equal, distinct), with and without the injected sync; each run for 6..35 steps through queue.New/Add/Next and through fake/gnmi Client.Run; an 'edge' family adds one documented error or boundary shape per case; a 'poll' family runs finite configurations through one Client in POLL mode (two passes from the same configuration object, compared with each other and with a STREAM run); every generator of a case is built from the SAME configuration object (three in a row in the queue/client families) and the configuration is compared before/after; a 'fixed' family drives FixedQueue through Client.Run with generators built from prefixes of one backing array ([n,n,n], [n,k,n], [k,k,k], [k,n,k]); explicit sync values 0..2 occur with DisableSync=false at any position; a 'draws' family calls Int63n/Intn/Float64 of a real rand.Rand directly with moduli that make the rejection loops run (validation of the math/rand port). distinct = distinct configuration+seed+steps; non-trivial = at least 3 values emitted")
+	meta := vh.NewMeta("corpus cases; seeded random configurations of 0..5 values of every kind (int/uint/double/string/string-list/bool/sync/delete) with range, list (random or rotating) or no distribution, value deltas, repeat in {-1,0,1,2,3,5}, shared and distinct small initial timestamps, timestamp deltas 0..6 (occasionally up to 2^45), global and per-value seeds (shared, equal, distinct), with and without the injected sync; each run for 6..35 steps through queue.New/Add/Next and through fake/gnmi Client.Run; global and per-value seeds are drawn from boundary seeds (-1, -7919, MinInt64, MaxInt64, 1, 2^31-1, 2^31, ...), random negative, random positive and small ones; an 'edge' family adds one documented error shape or one sign/zero/one/extreme variant of a numeric field (timestamp, ts deltas, repeat, seed, int/uint/double range bounds, value, value deltas, list length 0/1/2) per case; a 'poll' family runs finite configurations through one Client in POLL mode (two passes from the same configuration object, compared with each other and with a STREAM run); every generator of a case is built from the SAME configuration object (three in a row in the queue/client families) and the configuration is compared before/after; a 'fixed' family drives FixedQueue through Client.Run with generators built from prefixes of one backing array ([n,n,n], [n,k,n], [k,k,k], [k,n,k]); explicit sync values 0..2 occur with DisableSync=false at any position; a 'draws' family calls Int63n/Intn/Float64 of a real rand.Rand directly with moduli that make the rejection loops run (validation of the math/rand port). distinct = distinct configuration+seed+steps; non-trivial = at least 3 values emitted")
 	e := &emitter{dir: o.Out, cf: vh.NewCaseFile(), meta: meta, limit: 400}
 
 	if o.Replay != "" {
@@ -1407,9 +1544,9 @@ func main() {
 	}
 
 	r := vh.NewRand(o.Seed)
-	nq, nc, ne, nd, np, nf := 1500, 800, 600, 200, 300, 300
+	nq, nc, ne, nd, np, nf := 1400, 800, 900, 150, 250, 250
 	if o.Thorough() {
-		nq, nc, ne, nd, np, nf = 20000, 8000, 8000, 3000, 3000, 3000
+		nq, nc, ne, nd, np, nf = 18000, 8000, 12000, 3000, 3000, 3000
 	}
 	rq, rc, re, rd, rp, rf := r.Fork(), r.Fork(), r.Fork(), r.Fork(), r.Fork(), r.Fork()
 	for i := 0; i < np; i++ {
